@@ -125,7 +125,12 @@ pub fn check(c: &Case) -> Result<(), String> {
         Case::Derive { password, salt, ops, mem, cfg_hash_len, cfg_salt_len } => {
             // the key pair is defined by crypto_pwhash(32 bytes) + base-point multiplication; the hash/salt lengths
             // configured for password *hashes* must not influence it
-            let mut cfg = Config::interactive().with_opslimit(*ops).with_memlimit(*mem);
+            // builder calls in varying order / from different presets: every order must give the same configuration
+            let mut cfg = match (*ops as usize + *mem) % 3 {
+                0 => Config::interactive().with_opslimit(*ops).with_memlimit(*mem),
+                1 => Config::moderate().with_memlimit(*mem).with_opslimit(*ops),
+                _ => Config::sensitive().with_memlimit(*mem).with_salt_length(16).with_opslimit(*ops),
+            };
             if *cfg_hash_len != 0 {
                 cfg = cfg.with_hash_length(*cfg_hash_len);
             }
